@@ -5,6 +5,7 @@ CONSTANTS
   MaxM = 3
   MaxTotal = 6
   ZeroPairs = "split"
+  WithTwins = FALSE
   ExportAt = "solve"
 CONSTRAINT Export
 INVARIANT ImplCover
